@@ -409,7 +409,7 @@ impl Property for C12 {
     }
 
     fn plan(&self, tier: Tier) -> Vec<Stage<Case>> {
-        vec![Stage::random("histories", tier.pick(60_000, 1_500_000), case_strategy)]
+        vec![Stage::random("histories", tier.pick(300_000, 6_000_000), case_strategy)]
     }
 
     fn rule(&self) -> String {
@@ -417,7 +417,7 @@ impl Property for C12 {
     }
 
     fn floors(&self, tier: Tier) -> Vec<Floor> {
-        let n = tier.pick(60_000u64, 1_500_000);
+        let n = tier.pick(300_000u64, 6_000_000);
         let mut f: Vec<Floor> = Vec::new();
         for a in 0..3 {
             for b in 0..3 {
